@@ -118,6 +118,8 @@ def full_mention(p):
         st.builds(lambda v: ['#', v], ident),
         st.builds(lambda n, j: ['a', n, 'none', None, j], name, joined),
         st.builds(lambda n, v, j: ['a', n, 'raw', v, j], name, unq, joined),
+        # unquoted values with parentheses, balanced or left open (brackets are counted per kind: the set's `]` still ends the value)
+        st.builds(lambda n, v, j: ['a', n, 'raw', [v], j], name, st.sampled_from(['(b', 'f(x', 'x(', '((a', 'a(b)c(', 'f(x)', '(a)(b)']), joined),
         st.builds(lambda n, v, j: ['a', n, 'dq', v, j], name, dq, joined),
         st.builds(lambda n, v, j: ['a', n, 'sq', v, j], name, sq, joined),
         st.builds(lambda n, v, j: ['a', n, 'expr', v, j], st.sampled_from(['t', 'title', 'for']), ex, joined),
